@@ -1,6 +1,6 @@
 (* C06 — exception entry and RTE save and restore the interrupted context exactly. *)
 From Coq Require Import Bool ZArith List.
-From K Require Import Lib.Types Model.Machine Model.Bus Spec.MemMap Spec.ISA Proofs.RegProofs Proofs.StackProofs.
+From K Require Import Lib.Types Model.Machine Model.Bus Model.Cost Model.Addressing Model.Alu Model.Exec Spec.MemMap Spec.ISA Proofs.RegProofs Proofs.StackProofs Proofs.MemProofs Proofs.CtlProofs.
 Open Scope Z_scope.
 
 (* On the reference (enter_ref = TRAPA / interrupt acceptance through vector v, sem_ref IRte = RTE): entry
@@ -24,4 +24,25 @@ Proof. exact entry_rte_inverse_proof. Qed.
 Example c06_example : plain 0xffc000 = true /\ plain 0xffc003 = true.
 Proof. split; vm_compute; reflexivity. Qed.
 
+(* the model's TRAPA #1-3 handler is the reference's exception entry through vector 8 + n (followed by its charge), and
+   its RTE handler is the reference's RTE, for every state (s: after the instruction word has been fetched) *)
+Theorem trapa_refines :
+  forall op s,
+    regs_ok s -> 0 <= ccr s < 256 -> 0 <= pc s < 16777216 -> 1 <= nib op 3 <= 3 ->
+    (forall s1, push32 s (ccr s * A24 + pc s) = Some s1 -> bus_bytes_ok s1) ->
+    run_tag TTrapa op 0 0 s =
+    then_charge (enter_ref s (8 + nib op 3) (pc s))
+                (i <- cs KI 2 ;; j <- csa KJ 2 (0x20 + 4 * nib op 3) ;; k <- csa KK 2 ((reg32 s 7 - 4) mod A24) ;; n <- cs KN 4 ;;
+                 ret (u8add (u8add (u8add i j) k) n)).
+Proof. exact trapa_refines_proof. Qed.
+
+Theorem rte_refines :
+  forall op s, bus_bytes_ok s ->
+    run_tag TRte op 0 0 s =
+    then_charge (option_map (fun '(v, s1) => with_pc (v mod A24) (with_ccr (v / A24) s1)) (pop32 s))
+                (i <- cs KI 2 ;; k <- csa KK 2 (reg32 s 7 mod A24) ;; n <- cs KN 2 ;; ret (u8add (u8add i k) n)).
+Proof. exact rte_refines_proof. Qed.
+
 Print Assumptions entry_rte_inverse.
+Print Assumptions trapa_refines.
+Print Assumptions rte_refines.
